@@ -384,9 +384,14 @@ class Interp:
 
         return strat
 
-    def _behave(self, beh, path, entry_no):
+    def _behave(self, beh, path, entry_no, attempt=0):
         k = beh["kind"]
         if k == "ret":
+            return from_tagged(beh["v"])
+        if k == "fail_by_attempt":
+            # deterministic in the *recorded* attempt number: independent of interruptions
+            if (attempt or 0) < beh["k"]:
+                raise USER_ERRORS[beh["err"]](beh.get("msg", "transient"))
             return from_tagged(beh["v"])
         if k == "fail_then_ret":
             if entry_no <= beh["k"]:
@@ -410,7 +415,8 @@ class Interp:
             try:
                 for tag in st.get("logs", ()):
                     self._emit_log(sc.logger, tag, path, in_step=True)
-                return self._behave(beh, path, self.world["entries"][path])
+                att = (self.run.active_user.get(key) or {}).get("attempt") or 0
+                return self._behave(beh, path, self.world["entries"][path], att)
             finally:
                 self.exit_user(key)
 
@@ -550,14 +556,15 @@ class Interp:
 
         def next_state(s, attempt):
             if trans == "append":
-                return (list(s) if isinstance(s, (list, tuple)) else [s]) + [attempt]
+                base = list(s) if isinstance(s, (list, tuple)) else [s]
+                return base + [len(base)]
             if trans == "count":
                 return (s if isinstance(s, int) else 0) + 1
             if trans == "same":
                 return s
             if trans == "dict":
                 d = dict(s) if isinstance(s, dict) else {}
-                d[f"k{attempt}"] = attempt
+                d[f"k{len(d)}"] = len(d)
                 return d
             if trans == "inplace":
                 if isinstance(s, dict):
@@ -580,7 +587,10 @@ class Interp:
                 snap = to_tagged(state)
                 rec = {"path": path, "inv": run.inv, "clk": run.clock(), "state_in": snap, "n": n}
                 run.polls.append(rec)
-                if st.get("fail_at") == n:
+                recorded_poll_no = ((self.run.active_user.get(key) or {}).get("attempt") or 0) + 1
+                rec["poll_no"] = recorded_poll_no
+                if st.get("fail_at") == recorded_poll_no:
+                    rec["failed"] = True
                     raise USER_ERRORS[st.get("fail_err", "ValueError")]("check failed")
                 new = next_state(state, n)
                 rec["state_out"] = to_tagged(new)
@@ -689,6 +699,7 @@ def run_execution(case: dict, *, max_invocations: int | None = None, hooks: dict
     run = ExecResult()
     backend = Backend(case.get("backend"), input_payload=case.get("input_payload", "{}"))
     run.backend = backend
+    backend.on_update = lambda e: e.__setitem__("clk", run.clock())
     world: dict = {"entries": {}}
     run.world = world
     plan = case.get("plan") or {}
@@ -730,6 +741,7 @@ def run_execution(case: dict, *, max_invocations: int | None = None, hooks: dict
             sched = D.Scheduler(_chooser_for(case, inv), time_cap=case.get("time_cap", 400.0), step_cap=case.get("step_cap", 300_000),
                                 randoms=case.get("randoms", ()), start_time=backend.now)
             sched.line_mode = bool(line_mods)
+            sched.capture_dump = bool(case.get("capture_dump"))
             interp = Interp(case, run, backend, world)
             interp.sched = sched
             boto = FakeBoto(backend, sched, plan, inv, hooks=_mk_hooks(run, backend, ext, delivered_ext, hooks))
@@ -743,7 +755,7 @@ def run_execution(case: dict, *, max_invocations: int | None = None, hooks: dict
             backend.now = max(backend.now, sched.now)
             rec.update({"sched": sched.outcome, "steps": sched.step, "t1": backend.now, "trace": list(sched.trace), "api_calls": boto.n,
                         "calls_after_failure": boto.calls_after_failure, "failed_at": boto.failed_at,
-                        "deadlock_info": sched.deadlock_info, "switches": sched.switches,
+                        "deadlock_info": sched.deadlock_info, "switches": sched.switches, "abort_dump": sched.abort_dump,
                         "task_excs": [(t.name, type(t.exc).__name__, str(t.exc)[:200]) for t in sched.tasks if t.exc is not None and t is not sched.root],
                         "live_after_return": [t.name for t in sched.tasks if getattr(t, "_live_at_root_end", False)]})
             rec["active_user_at_end"] = [dict(v) for v in run.active_user.values()]
